@@ -10,7 +10,7 @@ import math
 from hypothesis import strategies as st
 
 from tracklib.algo.comparison import (MODE_COMPARISON_FRECHET, MODE_MATCHING_DTW, MODE_MATCHING_FDTW,
-                                      MODE_MATCHING_FRECHET, compare, match)
+                                      MODE_MATCHING_FRECHET, MODE_MATCHING_NN, compare, match)
 
 from vt import gen
 from vt.core import HarnessError, SubCheck, Violation, close
@@ -26,6 +26,9 @@ ASSUMPTIONS = [
     "required to agree exactly with the enumeration on every enumerable case, is the reference for larger sizes (up to 10 x 10)",
     "scores and realised costs are compared with relative tolerance 1e-9 (+1e-12 absolute); when several couplings are optimal any of them is accepted",
     "the matching is read from the 'pair' feature of the returned track: pair[j] = indices of track 2 linked with fix j of track 1, in list order",
+    "histories: passing the result of an earlier match() (any mode, nearest neighbour included) or a track with analytical features "
+    "of its own as first or second argument is ordinary use (match() deep-copies its first argument and re-initialises 'pair'); "
+    "nothing is demanded of the nearest-neighbour results themselves",
     "compare(mode=DTW/FDTW) (normalised score) and p = 0 / user weight functions are outside the statement and not checked",
 ]
 
@@ -280,14 +283,135 @@ def body_pair(case):
     return {"nt": bool(ties), "cls": cls}
 
 
+# ------------------------------------------------------------------------------------------------
+# (iii) short histories: the first argument of match() is the RESULT of earlier match() calls (one track matched
+# against several references in turn, the same pair re-matched, a nearest-neighbour matching first) and/or carries
+# analytical features of its own.  match() copies its first argument, features included, so this is ordinary use;
+# every DTW / FDTW / FRECHET result of the history must pass the complete oracle against the two tracks of ITS step.
+HMODES = {"dtw": MODE_MATCHING_DTW, "fdtw": MODE_MATCHING_FDTW, "frechet": MODE_MATCHING_FRECHET, "nn": MODE_MATCHING_NN}
+FEATURE_NAMES = ["foo", "abs_curv", "diff", "ex"]          # user-owned features; 'diff' / 'ex' collide with names match() writes
+
+
+def _mk(pts, feats=None):
+    features = {name: [float((3 * k + len(name)) % 5) for k in range(len(pts))] for name in (feats or [])}
+    return gen.make_track([tuple(float(v) for v in q) for q in pts], features=features)
+
+
+def _check_step(out, t1, t2, mode, dim, p, ctx):
+    pp = INF if mode == "frechet" else p
+    C, T, opt, _ = _reference(t1, t2, dim, pp)
+    _check_matching(out, C, opt, pp, "fdtw" if mode == "fdtw" else "dtw", ctx)
+    return _tie_classes(T)
+
+
+@st.composite
+def strat_history(draw):
+    kind = draw(st.sampled_from(["lat3", "lat3", "near", "line"]))
+    sizes = st.sampled_from([1, 2, 3, 3, 4, 4, 5, 6])
+    n0 = draw(sizes)
+    nref = draw(st.integers(1, 3))
+    if kind == "lat3":
+        c = st.integers(0, 2)
+        tracks = [[[draw(c), draw(c), draw(c)] for _ in range(n0)]]
+        for _ in range(nref):
+            tracks.append([[draw(c), draw(c), draw(c)] for _ in range(draw(sizes))])
+    elif kind == "near":                      # references = displaced resamplings of the base track
+        c = st.integers(0, 4)
+        e = st.integers(-1, 1)
+        base = [[draw(c), draw(c), draw(c)] for _ in range(n0)]
+        tracks = [base]
+        for _ in range(nref):
+            n = draw(sizes)
+            tracks.append([[base[min(n0 - 1, (k * n0) // n)][a] + draw(e) for a in range(3)] for k in range(n)])
+    else:                                     # parallel lines with uneven spacing: the couplings with two references differ a lot
+        x = st.integers(0, 8)
+        tracks = [[[k, 0, 0] for k in range(n0)]]
+        for r in range(nref):
+            xs = sorted(draw(x) for _ in range(draw(sizes)))
+            tracks.append([[v, r + 1, 1] for v in xs])
+    steps = []
+    for _ in range(draw(st.sampled_from([2, 3, 2, 3, 1]))):
+        steps.append({"ref": draw(st.integers(1, nref)),
+                      "mode": draw(st.sampled_from(["dtw", "dtw", "fdtw", "fdtw", "frechet", "nn"])),
+                      "p": draw(st.sampled_from([1, 2, "inf"])),
+                      "dim": draw(st.sampled_from([2, 2, 1, 3])),
+                      "swap": draw(st.sampled_from([False, False, False, True]))})
+    feats = draw(st.sampled_from([[], [], ["foo"], ["abs_curv", "foo"], ["diff"], ["ex", "foo"]]))
+    return {"tracks": tracks, "features": feats, "steps": steps}
+
+
+def body_history(case):
+    tracks, feats, steps = case["tracks"], list(case.get("features") or []), case["steps"]
+    if not tracks or any(not t for t in tracks) or not steps:
+        return {"undef": True}
+    cur = _mk(tracks[0], feats)
+    refs = {}
+    carried = bool(feats)          # does the first argument carry state (features of its own / of an earlier matching)?
+    prev_refs = []
+    cls = set()
+    nt = False
+    checked = 0
+    for k, stp in enumerate(steps):
+        ref, mode, p, dim, swap = int(stp["ref"]), stp["mode"], _p_of(stp["p"]), int(stp["dim"]), bool(stp.get("swap"))
+        if not (1 <= ref < len(tracks)) or mode not in HMODES or dim not in (1, 2, 3) or p not in (1, 2, INF):
+            return {"undef": True}
+        if ref not in refs:
+            refs[ref] = _mk(tracks[ref])
+        first, second = (refs[ref], cur) if swap else (cur, refs[ref])
+        g1, g2 = (tracks[ref], tracks[0]) if swap else (tracks[0], tracks[ref])
+        kw = dict(mode=HMODES[mode], dim=dim, verbose=False, plot=False)
+        if mode not in ("nn", "frechet"):
+            kw["p"] = p
+        out = match(first, second, **kw)
+        if mode != "nn":
+            ctx = "step %d of %s: mode=%s p=%s dim=%s swap=%s; tracks=%s features=%s" % (
+                k, [(s["mode"], s["ref"], bool(s.get("swap"))) for s in steps], mode, p, dim, swap, tracks, feats)
+            try:
+                ties = _check_step(out, g1, g2, mode, dim, p, ctx)
+            except Violation as v:
+                if carried and not swap:
+                    # same geometry, same call, but from a track without history: if that is fine the root cause is
+                    # state carried over from the first argument, not the dynamic programme
+                    fresh = match(_mk(tracks[0]), _mk(tracks[ref]), **kw)
+                    try:
+                        _check_step(fresh, g1, g2, mode, dim, p, ctx)
+                    except Violation:
+                        raise v
+                    raise Violation("stale-input-state:" + v.key, v.msg)
+                raise
+            checked += 1
+            if carried and not swap and k > 0:
+                nt = True
+                cls.add("checked-after-" + "+".join(sorted(set(s["mode"] for s in steps[:k] if not s.get("swap"))) or ["swap-only"]))
+                if ref in prev_refs:
+                    cls.add("rematch-same-reference")
+                if ties:
+                    cls.add("history+tie")
+        if not swap:
+            cur = out
+            carried = True
+            prev_refs.append(ref)
+    cls.add("steps=%d" % len(steps))
+    cls.add("features" if feats else "no-features")
+    if not checked:
+        cls.add("nothing-checked(nn only)")
+    return {"nt": nt, "cls": sorted(cls)}
+
+
 RULE = ("small: every unordered pair of tracks with <= 2 (quick) / <= 3 (thorough) fixes on the lattice {0,1,2}^2, each with p in "
         "{1, 2, inf}, dim 2, modes DTW and FDTW in both argument orders, plus match/compare FRECHET; pairs: Hypothesis - sizes 1..6 "
         "(1/8: 7..10) on {0,1,2}^3, {-2..2}^3, a track and its displaced resampling, {0,1}^2 stationary stretches, dyadic floats; "
         "p in {1,2,inf}, dim in {1,2,3}. Non-trivial: some cell of the reference DP table has two or more predecessors of equal "
-        "accumulated cost (the back-pointer rule matters). Distinct = hash of the case.")
+        "accumulated cost (the back-pointer rule matters). histories: Hypothesis - a base track (optionally carrying analytical "
+        "features, also ones named 'diff'/'ex') and 1..3 reference tracks, 1..3 steps out = match(current, ref_k, mode in "
+        "{DTW, FDTW, FRECHET, NN}, p, dim) with current := out (or, 1 in 4, match(ref_k, current)); every non-NN result is checked "
+        "with the complete oracle against the two tracks of its step; non-trivial there: a checked step whose first argument is the "
+        "result of an earlier step. Distinct = hash of the case.")
 
 SUBCHECKS = [
     SubCheck("small", body_small, enum=enum_small, rule="all unordered pairs of lattice tracks of <= 2/3 fixes x p in {1,2,inf}",
              qshards=8, tshards=16),
     SubCheck("pairs", body_pair, strategy=strat_pair, quick=8000, thorough=150000, qshards=8),
+    SubCheck("histories", body_history, strategy=strat_history, quick=4000, thorough=60000, qshards=8,
+             rule="1..3 successive match() calls on the result of the previous one / on a track with features"),
 ]
